@@ -95,6 +95,11 @@ def compute_inexact_flow_decomp_safe_paths(
     safe_paths_set = set()
     safe_paths_list = []
 
+    # Excess flows are sums and differences of the flow values: with float values an excess that is 0 in exact
+    # arithmetic may come out as +-1e-17. A path is reported safe only if its excess is positive beyond this tolerance
+    # (reporting fewer safe paths is always sound).
+    tolerance = 1e-9 * max([1.0] + [abs(data.get(upperbound_attr, 0) or 0) for _, _, data in G.edges(data=True)])
+
     # The algorithm follows a two pointer approach computing inexact excess flow
     # See https://doi.org/10.1007/978-3-031-04749-7_11 and https://doi.org/10.4230/LIPIcs.SEA.2024.14
 
@@ -112,7 +117,7 @@ def compute_inexact_flow_decomp_safe_paths(
             # Initialize new safe path
             if L == R:
                 assert len(safe_path) == 1
-                assert inexact_excess == 0
+                assert abs(inexact_excess) <= tolerance
 
                 R += 1
                 inexact_excess = G.edges[path[L], path[R]][lowerbound_attr]
@@ -123,7 +128,7 @@ def compute_inexact_flow_decomp_safe_paths(
             while R+1 < len(path):
                 rightdiff = G.edges[path[R], path[R+1]][upperbound_attr] - sum(G.edges[u, v][upperbound_attr] for u, v in G.out_edges(path[R]))
 
-                if inexact_excess + rightdiff <= 0:
+                if inexact_excess + rightdiff <= tolerance:
                     break
 
                 inexact_excess += rightdiff
